@@ -10,5 +10,8 @@ CONSTANTS
   OwnBytes = FALSE
   Nodes = {}
   ConnConfig = "live"
+  BareUpdate = "refused"
+  Sizes = {0}
+  ReadLimit = 0
 INVARIANTS StoredForm ReadBack OnlyWhenEnabled
 CHECK_DEADLOCK FALSE
